@@ -23,6 +23,8 @@ type C19Case struct {
 	Cmd string `json:"cmd,omitempty"`
 	// MaxFiles: descriptor limit for the run (include cycles end when descriptors run out; 0 = inherited)
 	MaxFiles int `json:"max_files,omitempty"`
+	// MaxMemKB: address-space limit for the run (definitions that double with every level)
+	MaxMemKB int `json:"max_mem_kb,omitempty"`
 }
 
 var hostile = []string{`\(?i:`, `\(?i:a`, `[(]?-s:`, `\x28?i:`, `(?:a\)|b)`, `[|]`, `\|`, `[\\]`, `\(?s)`, `\(?-s:.)`, `\(?m:^)`, `[(]?i:x)`, `\(?i:a|b)`, `(?:`, `)`, `(`, `[`, `]`, `{{`, `}}`, `{{x}}`,
@@ -135,6 +137,20 @@ func genC19(t *rapid.T) C19Case {
 		c.MaxFiles = 256
 		c.Kind = "program-with-include-cycle"
 	}
+	// a few hundred bytes of definitions that double with every level: no regex of that size can be wanted,
+	// the command must say so promptly instead of allocating until the machine gives up
+	if rapid.IntRange(0, 199).Draw(t, "doubling") == 0 {
+		depth := rapid.IntRange(25, 27).Draw(t, "doublingdepth")
+		var db strings.Builder
+		db.WriteString("##!> define a0 xxxxxxxxxx\n")
+		for i := 1; i <= depth; i++ {
+			fmt.Fprintf(&db, "##!> define a%d {{a%d}}{{a%d}}\n", i, i-1, i-1)
+		}
+		fmt.Fprintf(&db, "{{a%d}}", depth)
+		g.Prog.Main = append(g.Prog.Main, ragen.Line{K: ragen.KRaw, T: db.String()})
+		c.MaxMemKB = 1500000
+		c.Kind = "program-with-doubling-definitions"
+	}
 	c.Stdin = g.Prog.MainText()
 	c.Cmd = rapid.SampledFrom([]string{"", "", "", "", "", "generate-id", "update", "compare", "format", "format-check"}).Draw(t, "cmd")
 	for n, l := range g.Prog.Files {
@@ -193,9 +209,9 @@ func runC19(c C19Case, timeout time.Duration) cli.Result {
 	case "format-check":
 		args = append(args, "format", "--check", "932100")
 	default:
-		return cli.Run(cli.Opt{Dir: sb.Root, Stdin: c.Stdin, Timeout: timeout, MaxFiles: c.MaxFiles}, append(args, "generate", "-")...)
+		return cli.Run(cli.Opt{Dir: sb.Root, Stdin: c.Stdin, Timeout: timeout, MaxFiles: c.MaxFiles, MaxMemKB: c.MaxMemKB}, append(args, "generate", "-")...)
 	}
-	return cli.Run(cli.Opt{Dir: sb.Root, Timeout: timeout, MaxFiles: c.MaxFiles}, args...)
+	return cli.Run(cli.Opt{Dir: sb.Root, Timeout: timeout, MaxFiles: c.MaxFiles, MaxMemKB: c.MaxMemKB}, args...)
 }
 
 func checkC19(c C19Case) Outcome {
